@@ -1,7 +1,7 @@
 """Which jobs and extra checks decide which property (the sidecar's table of contents)."""
 import importlib
 
-JOB_MODULES = ["contracts.jobs_basic", "contracts.jobs_multi", "contracts.jobs_classes", "contracts.jobs_context", "contracts.jobs_asynctools", "contracts.jobs_core", "contracts.jobs_lru", "contracts.jobs_cached_property", "contracts.jobs_tee", "contracts.jobs_heapq"]
+JOB_MODULES = ["contracts.jobs_basic", "contracts.jobs_multi", "contracts.jobs_classes", "contracts.jobs_context", "contracts.jobs_asynctools", "contracts.jobs_core", "contracts.jobs_lru", "contracts.jobs_cached_property", "contracts.jobs_tee", "contracts.jobs_heapq", "contracts.jobs_islice"]
 CANARY = "contracts.jobs_canary"
 
 _cache = {}
@@ -47,7 +47,7 @@ TB_COMMON = [
 ]
 
 PROPS = {
-    "C01": dict(level="proof", extra=[extras.refs_validation], canaries=[(CANARY, "canary:filter-yields-before-test")], trusted_base=TB_COMMON,
+    "C01": dict(level="proof", extra=[extras.refs_validation, extras.modulus_lemma], canaries=[(CANARY, "canary:filter-yields-before-test")], trusted_base=TB_COMMON,
                 explanation="relational proof: every yielded item (object identity) and the final outcome of each tool equal those of the reference generator, for all items/lengths (loop cut + inductive coupling invariant)"),
     "C02": dict(level="proof", extra=[extras.refs_validation], canaries=[(CANARY, "canary:max-last-of-ties")], trusted_base=TB_COMMON + ["list.sort = stable sort (uninterpreted sort_by)"],
                 explanation="relational proof of return value / exception class against the reference aggregation; mutation of arguments shows as an in-place Op event the reference never performs"),
@@ -56,7 +56,7 @@ PROPS = {
                 explanation="(a) contracts of _core.aiter/_aiter_sync/ScopedIter/borrow/awaitify/Awaitify proved on the real code for every iterable flavour (async generator, class-based with/without aclose, sync iterable, sequence) and callable flavour (def, async def/partial of one, callable returning an awaitable), incl. the cached state of Awaitify; (b) every tool is verified against those contracts only and every user callable is invoked through awaitify and awaited at once (neutral-call / await-adjacent obligations), so tool proofs never depend on the flavour; (c) result-kind judgement for every public name"),
     "C04": dict(level="proof", canaries=[(CANARY, "canary:enumerate-leaks-source")], trusted_base=TB_COMMON,
                 explanation="release postcondition at every exit path (exhaustion, consumer close at every yield, raise/cancel at every pull/call)"),
-    "C05": dict(level="proof", extra=[extras.refs_validation], canaries=[(CANARY, "canary:filter-yields-before-test")], trusted_base=TB_COMMON,
+    "C05": dict(level="proof", extra=[extras.refs_validation, extras.modulus_lemma], canaries=[(CANARY, "canary:filter-yields-before-test")], trusted_base=TB_COMMON,
                 explanation="event-match on requests: pulls, end detections and callable invocations occur in the reference's order between any two yields"),
     "C06": dict(level="proof", extra=[extras.refs_validation], canaries=[(CANARY, "canary:filter-yields-before-test")], trusted_base=TB_COMMON,
                 explanation="a fault answered at every pull/call/op: same events up to the fault, the very same exception object propagates"),
